@@ -257,6 +257,27 @@ def probes(model, part, case, touched):
                     extra = sorted(set(out) - {"type", "id", "created", "modified", "spec_version", "prop", "extensions"})
                     if extra or out.get("prop") != "v":
                         fail("C19/round-trip/%s" % cat, "an object of a registered custom type does not serialize to what was parsed", "prop=v, no other properties", out, [cat, name, ver])
+                    if cat == "objects":
+                        # the common properties of a custom object follow the rules of ITS spec version, like a built-in type: timestamps keep / cut their digits the
+                        # same way, and a new version made within the same millisecond is newer
+                        sub = "2020-01-01T00:00:00.123456Z"
+                        try:
+                            o2 = stix2.parse(dict(probe_object(name, ver), created=sub, modified=sub), version=ver, allow_custom=False)
+                            w2 = json.loads(o2.serialize())
+                            ref_cls = (stix2.v20 if ver == "2.0" else stix2.v21).Identity
+                            wr = json.loads(ref_cls(name="n", identity_class="individual", created=sub, modified=sub).serialize())
+                            got_t, want_t = [w2.get("created"), w2.get("modified")], [wr.get("created"), wr.get("modified")]
+                            env.CLOCK.frozen = o2.modified
+                            try:
+                                nv = json.loads(o2.new_version(prop="w").serialize())["modified"]
+                            finally:
+                                env.CLOCK.frozen = None
+                            newer = nv > w2.get("modified") if len(nv) == len(w2.get("modified", "")) else nv != w2.get("modified")
+                        except Exception as e:
+                            got_t, want_t, newer = "%s: %s" % (type(e).__name__, str(e)[:100]), None, True
+                        if got_t != want_t or not newer:
+                            fail("C19/common-properties-differ-from-builtin-types/%s" % ("timestamps" if got_t != want_t else "new_version-not-newer"),
+                                 "created / modified of a registered custom object are not handled like those of a built-in type of the same spec version", want_t, got_t, [cat, name, ver])
                     ext_id = getattr(cls, "with_extension", None)
                     if ext_id and ver == "2.1":
                         # a type defined through an extension definition: every object of it names that definition (extension_type new-sdo / new-sco), parsed or constructed
